@@ -59,6 +59,14 @@ def build(case: dict, variant: int) -> dict:
         base.insert(mid, "{\n.db 0x11\n" + snip + "\n.db 0x22\n}")
     elif pos == "inmacro":
         base.insert(mid, ".macro faulty() {\n.db 0x33\n" + snip + "\n}\nfaulty()")
+    elif pos == "inif":
+        base.insert(mid, ".if 1 {\n.db 0x66\n" + snip + "\n} else {\n.db 0x77\n}")
+    elif pos == "inelse":
+        base.insert(mid, ".if 0 {\n.db 0x66\n} else {\n" + snip + "\n.db 0x77\n}")
+    elif pos == "infor":
+        base.insert(mid, ".for fk := 0, 2 {\n.db fk\n" + snip + "\n}")
+    elif pos == "inscope":
+        base.insert(mid, ".scope faultscope {\n.db 0x88\n" + snip + "\n}")
     elif pos == "ininclude":
         files["part.s"] = {"text": ".db 0x44\n" + snip + "\n.db 0x55\n"}
         base.insert(mid, ".include 'part.s'")
@@ -66,7 +74,7 @@ def build(case: dict, variant: int) -> dict:
 
 
 def run(ctx) -> None:
-    ctx.rule = ("cases = GenC14: 4 entry points x 19 fault classes x 6 positions x 3 base programs (x snippet variants); "
+    ctx.rule = ("cases = GenC14: 4 entry points x 19 fault classes x 10 positions x 3 base programs (x snippet variants); "
                 "non-trivial = distinct (entry, fault class, position, base, variant)")
     ctx.trusted = ["TLC 1.8", "spec/Front.tla, FrontDefs.tla", "fault snippets and base programs in harness/props/c14.py "
                    "(each snippet is a definite error by construction)"]
@@ -84,7 +92,7 @@ def run(ctx) -> None:
     for c in cases:
         nvar = len(SNIPPETS.get(c["fault"], [""]))
         vs = range(nvar) if (not ctx.quick or c["entry"] != "cli") else [hash((c["pos"], c["base"], ctx.seed)) % nvar]
-        if ctx.quick and c["entry"] == "cli" and c["base"] != "b1" and c["pos"] not in ("middle", "inmacro"):
+        if ctx.quick and c["entry"] == "cli" and c["base"] != "b1" and c["pos"] not in ("middle", "inmacro", "inif"):
             continue    # the CLI is a real subprocess per case: quick samples positions/bases for it
         for v in vs:
             b = build(c, v)
